@@ -37,7 +37,7 @@ ConfigsOf(kd) ==
   LET u == HOf(kd) + 2 IN
   { [name |-> kd, kind |-> FamOf(kd), h |-> HOf(kd), t0 |-> 0, t1 |-> L, dtmin |-> u, dtmax |-> mx,
      dt0 |-> (IF kd = "euler" THEN mx ELSE (u + mx) \div 2)] :
-      mx \in {u, 2 * u, 3 * u + 1}, L \in 1..(IF Thorough THEN 14 * u ELSE 8 * u) }
+      mx \in {u, 2 * u, 3 * u + 1}, L \in 1..(IF Thorough THEN 12 * u ELSE 8 * u) }
 Configs == UNION { ConfigsOf(kd) : kd \in Kinds }
 
 CfgOf(c) == [kind |-> IF c.kind = "euler" THEN "euler" ELSE "adaptive", t0 |-> c.t0, t1 |-> c.t1,
